@@ -9,19 +9,25 @@ V = os.path.dirname(os.path.dirname(os.path.abspath(__file__)))
 module, ns, world = sys.argv[1], sys.argv[2], sys.argv[3]
 src = open(os.path.join(V, "lean", module.replace(".", "/") + ".lean")).read()
 P = json.load(open(os.path.join(V, "props.json")))
-names = re.findall(r"^theorem (\w+_refines_of_le)\b", src, re.M)
+SUFFIX = r"(_refines_of_le|_general_of_le|_anyorder_of_le|_disciplined|_sequence_refines|_runWithDefers|_blocks|_labels|_of_le_val|_one_go|_clamp_first|_tasks_cap|_spawnLoop|_body)$"
+names = [n for n in re.findall(r"^theorem (\w+)\b", src, re.M) if re.search(SUFFIX, n)]
+ties = sorted({t["name"].split(".")[-1] for p in P for t in P[p]["theorems"] if t["name"].startswith("Flyt.Tie.")}, key=len, reverse=True)
 added = {}
 for p in P:
     P[p]["theorems"] = [t for t in P[p]["theorems"] if t["module"] != module]
 for n in names:
-    func = re.sub(r"(_closure|_wrapper|_builder_wrapper)?_refines_of_le$", "", n)
+    func = next((f for f in ties if n == f or n.startswith(f + "_")), None)
+    if func is None:
+        alias = {"Submit_labels": "WorkerPool_Submit", "Wait_labels": "WorkerPool_Wait", "Close_labels": "WorkerPool_Close",
+                 "worker_labels": "WorkerPool_worker", "worker_iteration_labels": "WorkerPool_worker", "wrapper_labels": "WorkerPool_Submit"}
+        func = alias.get(n)
+    if func is None:
+        print("no Tie obligation matches", n, "(not registered)")
+        continue
     tie = "Flyt.Tie." + func
     owners = [p for p in P if any(t["name"] == tie for t in P[p]["theorems"])]
-    if not owners:
-        print("no Tie obligation for", func, "(theorem %s not registered)" % n)
-        continue
-    doc = ("**Source refinement.** The GoIR interpretation of the translated source of `%s` (Expected.IR, tied to the current source "
-           "by `Tie.%s`) in %s computes exactly the hand-written model's function, for ALL inputs and every sufficient fuel "
+    doc = ("**Source refinement.** About the GoIR interpretation of the translated source of `%s` (Expected.IR, tied to the current source "
+           "by `Tie.%s`) in %s: it computes exactly what the hand-written model says, for ALL inputs and every sufficient fuel "
            "(statement: `%s.%s`)." % (func.replace("_", "."), func, world, ns, n))
     for p in owners:
         P[p]["theorems"].append({"module": module, "name": ns + "." + n, "doc": doc})
